@@ -72,6 +72,7 @@ def run(ctx):
     n_src = 20 if ctx.quick else 40
     for ip in range(n_pkg):
         d = ctx.newdir('p')
+        pkg.YESNO = ip          # spelling of the yes/no flags in models.conf (any case)
         mode = '2d' if ip % 2 == 0 else '3d'
         style = ['v1', 'v1', 'v2', 'v2'][ip % 4] if ip < 8 else str(rng.choice(['v1', 'v2']))
         n_models = int(rng.choice([1, 2, 6, 15, 40, 200], p=[0.1, 0.15, 0.3, 0.2, 0.15, 0.1]))
